@@ -1072,6 +1072,7 @@ struct FsState
     bool fault_fired = false;
     std::string sticky_dest; // absolute path that can no longer be created (whole-operation failure)
     int sticky_err = 0;
+    int short_fd = -1, short_err = 0; // FS_ERR_SHORT_FIRST: the next write to this descriptor fails
 };
 FsState F;
 
@@ -1167,6 +1168,7 @@ void fs_arm(const FsConfig &cfg)
     F.rng = Rng(cfg.fault_seed ^ 0xf5f5f5f5ull);
     memset(F.counts, 0, sizeof F.counts);
     F.fault_fired = false;
+    F.short_fd = -1;
     F.sticky_dest.clear();
     F.armed = true;
 }
@@ -1194,6 +1196,7 @@ void fs_begin_op(int op)
 void fs_set_fault(const FsFault &f)
 {
     F.cfg.fault = f;
+    F.short_fd = -1;
     F.fault_fired = false;
     F.sticky_dest.clear();
 }
@@ -1642,18 +1645,37 @@ ssize_t write(int fd, const void *buf, size_t n)
             errno = F.cfg.fail_write_errno;
             return -1;
         }
-        if (fault_hits(FS_WRITE, &err)) {
-            boundary(FS_WRITE, "write", rel, nullptr, ord, false, buf, 0, fd, err);
-            errno = err;
+        if (F.short_fd == fd) {
+            // the continuation of a write that was cut short: the device is full now
+            F.short_fd = -1;
+            F.counts[FS_WRITE]++;
+            count(C_FS_ERRNO_INJECTED);
+            boundary(FS_WRITE, "write", rel, nullptr, ord, false, buf, 0, fd, F.short_err);
+            errno = F.short_err;
             return -1;
         }
-        if (F.cfg.eintr_pct > 0 && (int)F.rng.below(100) < F.cfg.eintr_pct) {
+        bool cut_short = false;
+        if (fault_hits(FS_WRITE, &err)) {
+            if ((F.cfg.fault.err & FS_ERR_SHORT_FIRST) && n > 1) {
+                cut_short = true;
+                F.short_fd = fd;
+                F.short_err = err;
+            } else {
+                boundary(FS_WRITE, "write", rel, nullptr, ord, false, buf, 0, fd, err);
+                errno = err;
+                return -1;
+            }
+        }
+        if (!cut_short && F.cfg.eintr_pct > 0 && (int)F.rng.below(100) < F.cfg.eintr_pct) {
             count(C_FS_EINTR);
             errno = EINTR;
             return -1;
         }
         size_t len = n;
-        if (F.cfg.short_write_pct > 0 && n > 1 && (int)F.rng.below(100) < F.cfg.short_write_pct) {
+        if (cut_short) {
+            len = n / 2;
+            count(C_FS_SHORT_WRITE);
+        } else if (F.cfg.short_write_pct > 0 && n > 1 && (int)F.rng.below(100) < F.cfg.short_write_pct) {
             len = 1 + (size_t)F.rng.below(n - 1);
             count(C_FS_SHORT_WRITE);
         }
